@@ -213,6 +213,11 @@ func CheckTableNamesMatch(parsedQuery sqlparser.Statement, setOfTables map[strin
 			atLeastOneTableNameMatch = false
 			allTableNamesMatch = false
 		}
+		// a rule may also name the target together with its schema / database qualifier
+		if !atLeastOneTableNameMatch && (setOfTables[sqlparser.String(query.Table)] || setOfTables[rawTableName(query.Table)]) {
+			atLeastOneTableNameMatch = true
+			allTableNamesMatch = true
+		}
 		break
 	default:
 		//TODO other query types
@@ -257,13 +262,24 @@ func rawTableName(expr sqlparser.SimpleTableExpr) string {
 	return tableName.Qualifier.RawValue() + "." + tableName.Name.RawValue()
 }
 
+// bareTableName returns the table name without its schema / database qualifier and without
+// identifier quotes: a table rule written as a plain name covers the table also when a statement
+// spells it with a qualifier (as it always did for the target of INSERT).
+func bareTableName(expr sqlparser.SimpleTableExpr) string {
+	tableName, ok := expr.(sqlparser.TableName)
+	if !ok || tableName.Qualifier.IsEmpty() {
+		return ""
+	}
+	return tableName.Name.RawValue()
+}
+
 func checkTableExprMatch(table sqlparser.TableExpr, setOfTables map[string]bool) (bool, bool) {
 	oneTableMatch := false
 	allTablesMatch := false
 
 	switch tbl := table.(type) {
 	case *sqlparser.AliasedTableExpr:
-		if setOfTables[sqlparser.String(tbl.Expr)] || setOfTables[rawTableName(tbl.Expr)] {
+		if setOfTables[sqlparser.String(tbl.Expr)] || setOfTables[rawTableName(tbl.Expr)] || setOfTables[bareTableName(tbl.Expr)] {
 			oneTableMatch = true
 			allTablesMatch = true
 		}
